@@ -8,6 +8,33 @@ TRUSTED_BASE = [
 ]
 
 PROPS = {
+    "C12": {
+        "modules": ["Replicon.Props.C12"],
+        "theorems": [
+            "Replicon.C12.C12_tick_order",
+            "Replicon.C12.C12_history_refines",
+            "Replicon.C12.C12_history_refines_new",
+            "Replicon.C12.C12_contains",
+            "Replicon.C12.C12_contains_any",
+        ],
+        "const_obligations": ["Consts.tickHalf = u32::MAX/2 (RepliconTick::cmp)", "Consts.historyBits (4 sites agree)", "Consts.historyInitMask"],
+        "profiles": [{"name": "c12"}],
+        "rule": "c12cmp: real RepliconTick::cmp on boundary and random pairs of absolute ticks (residues mod 2^32 go to the code); "
+                "c12ch / c12smt: generated sequences of confirm / contains / contains_any calls on a real ConfirmHistory / "
+                "ServerMutateTicks over absolute ticks (distances 0..3, 31..33, 62..66, 127..129, 2^31-1.., bases around 0, 2^31, 2^32 and "
+                "multiples; every sequence ends with the whole-window range queries). After every call the implementation's answer / "
+                "(mask,last_tick) is compared with the Lean model and, for well-formed sequences (wf=1: all ticks within half range), with the "
+                "plain-set specification (SetSpec / CountSpec). wf=0 sequences (beyond half range, inconsistent counts) are only compared "
+                "model-vs-implementation. distinct_nontrivial = distinct sequences with >= 2 confirmations (or cmp of two different ticks).",
+        "trusted_extra": [
+            "modelled, not verified: u64 shift semantics of Rust (checked_shl, <<, >> as BitVec 64 operations), VecDeque rotation as a closed form",
+        ],
+        "assumptions": [
+            "well-formedness premise of the property itself: ticks less than half the counter range apart (Near)",
+            "ServerMutateTicks is covered by model + differential + oracle on this run; its refinement theorem is listed separately once proved",
+            "end-to-end clause (MutateTickReceived fires once, only when every mutate message of the tick was applied) is part of the protocol trace validation, not of this leaf check",
+        ],
+    },
     "C15": {
         "modules": ["Replicon.Props.C15"],
         "theorems": [
@@ -35,6 +62,18 @@ PROPS = {
 }
 
 MANIFEST_TEXT = {
+    "C12": {
+        "text": "Lean theorems: RepliconTick::cmp equals the order of the unwrapped ticks whenever they are < 2^31 apart (C12_tick_order); "
+                "for every confirmation sequence of any length over unwrapped ticks (gaps beyond the window, across the 2^32 wrap) "
+                "ConfirmHistory never panics and (mask,last_tick) represent exactly the plain set of confirmed ticks (C12_history_refines), "
+                "and contains / contains_any answer as that set would, including the 64-wide range (C12_contains, C12_contains_any). "
+                "Constants (window, half range, initial mask) are regenerated from the source on every run; the model is run against the real "
+                "types on ~34k generated sequences per quick run, with the set specification as oracle on the implementation's answers.",
+        "design_ref": "DESIGN.md §7 C12, §4.1, §4.2",
+        "note": "ServerMutateTicks: exact model + differential + CountSpec oracle; refinement theorem in progress. End-to-end MutateTickReceived "
+                "clause belongs to the protocol trace validation. Trusted: Lean kernel, harness/driver, Rust shift semantics as modelled.",
+        "technique": "Lean 4 proof (refinement of a plain-set spec, induction over the confirmation list, BitVec bit lemmas) + constants extraction + differential correspondence",
+    },
     "C15": {
         "text": "Lean theorems C15_roundtrip (all valid index/generation pairs, any trailing bytes) and C15_total (all byte lists: "
                 "never a panic, success implies a valid identifier and a proper suffix) about an exact model of serialize_entity / "
